@@ -10,7 +10,8 @@ body) give the same text.
 
 Value domain
   int     linear forms  a*n + b*r + c  over  n = vtChannels.size  and  r = the loop counter (canonical printing)
-  scalar  trees over P (2nd parameter), N (3rd), Es (4th): + - * /, `float(x)`, `arr[int]`, `sum(arr)`, int -> scalar
+  scalar  trees over P (2nd parameter), N (3rd), Es (4th): + - * / (operands of + and * in a fixed order),
+          `float(x)`, `arr[int]`, `sum(arr)`, int -> scalar
   array   the gains, `np.argsort(gains)` (ascending) and its reversal `[::-1]`, `gains[sortidx]`, prefixes
           `a[np.arange(0, k)]` / `a[np.arange(k)]` / `a[:k]`, elementwise `array op scalar`, `np.zeros(n)` and
           the scattered array `z[idx] = vals`
@@ -101,6 +102,8 @@ IDX = ('sortidx',)
 
 
 def kind(v):
+    if v is None:
+        return "none"
     if isinstance(v, Lin):
         return 'int'
     if isinstance(v, tuple) and v:
@@ -172,8 +175,8 @@ class Exec:
         if isinstance(e, ast.BinOp):
             return self.binop(e.op, self.ev(e.left, env), self.ev(e.right, env), e)
         if isinstance(e, ast.Attribute):
-            if e.attr == 'size' and kind(self.ev(e.value, env)) == 'gains':
-                return Lin(n=1)
+            if e.attr == 'size' and (kind(self.ev(e.value, env)) == 'gains' or self.ev(e.value, env)[0] in ('sorted', 'sortidx')):
+                return Lin(n=1)         # the sorted gains and the sort indexes have one entry per channel
             fail('unsupported attribute %s' % ast.unparse(e), e)
         if isinstance(e, ast.Subscript):
             return self.subscript(e, env)
@@ -203,13 +206,24 @@ class Exec:
             fail('unsupported integer arithmetic (%s)' % name, node)
         if kl == 'arr' and kr in ('sc', 'int'):
             base, body = (l[1], l[2]) if l[0] == 'map' else (l, ('x',))      # maps are fused
-            return ('map', base, (name, body, self.to_sc(r, node)))
+            return ('map', base, self.mk(name, body, self.to_sc(r, node)))
         if kr == 'arr' and kl in ('sc', 'int'):
             base, body = (r[1], r[2]) if r[0] == 'map' else (r, ('x',))
-            return ('map', base, (name, self.to_sc(l, node), body))
+            return ('map', base, self.mk(name, self.to_sc(l, node), body))
         if kl in ('sc', 'int') and kr in ('sc', 'int'):
-            return (name, self.to_sc(l, node), self.to_sc(r, node))
+            return self.mk(name, self.to_sc(l, node), self.to_sc(r, node))
         fail('unsupported operands %s %s %s' % (kl, name, kr), node)
+
+    RANK = ('P', 'N', 'Es', 'cast', 'get', 'sum', 'neg', 'div', 'mul', 'add', 'sub', 'x')
+
+    @classmethod
+    def mk(cls, name, a, b):
+        """scalar `a op b`; the operands of the commutative + and * (commutative in binary64 too) in a fixed order"""
+        if name in ('add', 'mul'):
+            ka, kb = (cls.RANK.index(a[0]), repr(key(a))), (cls.RANK.index(b[0]), repr(key(b)))
+            if kb < ka:
+                a, b = b, a
+        return (name, a, b)
 
     def arange_bound(self, e, env):
         """k if `e` is np.arange(0, k) / np.arange(k)"""
@@ -419,7 +433,7 @@ class Exec:
                 t = s.test
                 if isinstance(t, ast.Call) and ast.unparse(t.func) == 'isinstance' and len(t.args) == 2 \
                         and ast.unparse(t.args[1]) == 'np.ndarray' and isinstance(t.args[0], ast.Name) \
-                        and kind(env.get(t.args[0].id)) in ('arr', 'gains', 'idx'):
+                        and kind(env.get(t.args[0].id)) in ('arr', 'gains', 'idx', 'zeros', 'scatter'):
                     continue            # true of every array value of the domain
                 fail('unsupported assert %s' % ast.unparse(t)[:60], s)
             if isinstance(s, ast.Assign):
@@ -646,6 +660,8 @@ def gen(repo):
     if dfl not in (['1.0', '1.0'], ['1', '1']):
         fail('unexpected default values %r (the model has noiseVar=1, Es=1)' % (dfl,))
     g, p, nv, es = [x.arg for x in a.args]
+    if [g, p, nv, es] != ['vtChannels', 'dPt', 'noiseVar', 'Es']:
+        fail('the parameters of %s were renamed / reordered (keyword callers depend on them): %r' % (FN, [g, p, nv, es]))
     env = {g: ('gains',), p: ('P',), nv: ('N',), es: ('Es',)}
     ex = Exec(tree)
     ret = ex.block(strip_doc(fn.body), env, top=True)
